@@ -33,6 +33,7 @@ func genC06(t *rapid.T) (C06Case, bool) {
 	cfg := model.DefaultGen()
 	cfg.MaxImports = 1
 	cfg.ArgRefPct = 30 // generics instantiated with records/enums, so that an edit inside one is seen through a type argument
+	cfg.TwiceGenericPct = 30 // one generic record or alias instantiated twice; the second argument type is used nowhere else
 	old := model.GenPackage(t, &cfg)
 	c := C06Case{Gen: rapid.SampledFrom([]string{"self", "rewrite", "rewrite", "edit", "edit", "edit", "edit", "edit", "arbitrary"}).Draw(t, "gen")}
 	neu := old.Clone()
